@@ -30,8 +30,12 @@ T9000 == T("90.00")
 CrystVals(b) ==
   [record |-> TCRYST1, a |-> FixedText(b[1], 3), b |-> FixedText(b[2], 3), c |-> FixedText(b[3], 3),
    alpha |-> T9000, beta |-> T9000, gamma |-> T9000, sGroup |-> T("P 1"), z |-> T("1")]
-(* Dom_Box: orthorhombic cell with finite positive edge lengths *)
-Dom_Box(S) == S.box = <<>> \/ \A k \in 1..3 : ~IsSpecial(S.box[1][k]) /\ S.box[1][k][1] > 0
+(* Dom_Box: orthorhombic cell with finite positive edge lengths, none of them shorter than 1/10000 of
+   their sum (vectors_from_unitcell clears smaller vector components as numerical noise) *)
+BoxFinite(S) == \A k \in 1..3 : ~IsSpecial(S.box[1][k]) /\ S.box[1][k][1] > 0
+BoxAspect(S) == LET u == [k \in 1..3 |-> RoundUnits(S.box[1][k], 3)] IN
+                \A k \in 1..3 : u[k] >= (u[1] + u[2] + u[3]) \div 10000 + 1
+Dom_Box(S) == S.box = <<>> \/ (BoxFinite(S) /\ BoxAspect(S))
 BoxWritable(S) == S.box = <<>> \/ FitsAll(CrystLayout, CrystVals(S.box[1]))
 KB_CrystOverflow(S) == S.box # <<>> /\ ~BoxWritable(S)          \* not checked by the writer
 
@@ -56,35 +60,39 @@ Carried(S) ==
 CarriedPairs(S) == {<<b[1], b[2]>> : b \in Carried(S)}
 Partners(P, i) == {p[2] : p \in {q \in P : q[1] = i}} \cup {p[1] : p \in {q \in P : q[2] = i}}
 SortedSeq(X) == SetToSortSeq(X, <)
-SerialText(S, i) == AtomVals(S.atoms[i], S.models[1][i], S.opt, i).serial
-(* records of one centre atom (0-based c): its partners in increasing order, four per record *)
-ConectOf(S, c) ==
-  LET ps == SortedSeq(Partners(CarriedPairs(S), c))
+SerialText(S, i) == IdText(SerialOf(S.atoms[i], S.opt, i), 5, MaxSerial, S.opt.h36).s
+(* records of one centre atom (0-based c): its partners in increasing order, four per record;
+   P the carried pairs, ids the serial texts of all atoms *)
+ConectOf(P, ids, c) ==
+  LET ps == SortedSeq(Partners(P, c))
       nrec == (Len(ps) + 3) \div 4
   IN [r \in 1..nrec |->
-        TCONECT \o RJust(SerialText(S, c + 1), 5)
+        TCONECT \o RJust(ids[c + 1], 5)
           \o Flat([k \in 1..(IF r < nrec THEN 4 ELSE Len(ps) - 4 * (nrec - 1)) |->
-                     RJust(SerialText(S, ps[4 * (r - 1) + k] + 1), 5)])]
+                     RJust(ids[ps[4 * (r - 1) + k] + 1], 5)])]
 ConectLines(S) ==
   IF S.bonds = <<>> THEN <<>>
-  ELSE Flat([c \in 1..NAtoms(S) |-> ConectOf(S, c - 1)])
+  ELSE Bind(CarriedPairs(S), LAMBDA P :
+         Bind([i \in 1..NAtoms(S) |-> SerialText(S, i)], LAMBDA ids :
+           Flat([c \in 1..NAtoms(S) |-> ConectOf(P, ids, c - 1)])))
 
 (* ------------------------------------------------------------------ the writer *)
 AtomRes(S, m, i) == WriteAtom(S.atoms[i], S.models[m][i], S.opt, i)
+AllAtomRes(S) == [m \in 1..NModels(S) |-> [i \in 1..NAtoms(S) |-> AtomRes(S, m, i)]]
 FileWritable(S) ==
   /\ \A m \in 1..NModels(S) : \A i \in 1..NAtoms(S) : AtomRes(S, m, i).oc = "ok"
   /\ BoxWritable(S)
 
-ModelBlock(S, m) ==
-  LET atoms == [i \in 1..NAtoms(S) |-> AtomRes(S, m, i).line] IN
-  IF NModels(S) > 1 THEN <<ModelLine(m)>> \o atoms \o <<TENDMDL>> ELSE atoms
-
 WriteFile(S) ==
-  IF ~FileWritable(S) THEN [oc |-> "Rejected", lines |-> <<>>]
-  ELSE [oc |-> "ok",
-        lines |-> (IF S.box = <<>> THEN <<>> ELSE <<Render(CrystLayout, CrystVals(S.box[1]), LineLen)>>)
-                    \o Flat([m \in 1..NModels(S) |-> ModelBlock(S, m)])
-                    \o ConectLines(S)]
+  Bind(AllAtomRes(S), LAMBDA res :
+    IF ~(BoxWritable(S) /\ \A m \in 1..NModels(S) : \A i \in 1..NAtoms(S) : res[m][i].oc = "ok")
+      THEN [oc |-> "Rejected", lines |-> <<>>]
+      ELSE [oc |-> "ok",
+            lines |-> (IF S.box = <<>> THEN <<>> ELSE <<Render(CrystLayout, CrystVals(S.box[1]), LineLen)>>)
+                        \o Flat([m \in 1..NModels(S) |->
+                                   LET atoms == [i \in 1..NAtoms(S) |-> res[m][i].line] IN
+                                   IF NModels(S) > 1 THEN <<ModelLine(m)>> \o atoms \o <<TENDMDL>> ELSE atoms])
+                        \o ConectLines(S)])
 
 (* ------------------------------------------------------------------ line kinds and models *)
 LineKind(l) ==
@@ -129,6 +137,8 @@ Template(resn) ==
   CASE resn = T("ALA") -> Tpl({<<"N","CA",1>>, <<"CA","C",1>>, <<"C","O",2>>, <<"CA","CB",1>>, <<"C","OXT",1>>})
     [] resn = T("GLY") -> Tpl({<<"N","CA",1>>, <<"CA","C",1>>, <<"C","O",2>>, <<"C","OXT",1>>})
     [] resn = T("SER") -> Tpl({<<"N","CA",1>>, <<"CA","C",1>>, <<"C","O",2>>, <<"CA","CB",1>>, <<"CB","OG",1>>})
+    [] resn \in {T("DA"), T("DG")} ->
+         Tpl({<<"P","OP1",2>>, <<"P","O5'",1>>, <<"O5'","C5'",1>>, <<"C5'","C3'",1>>, <<"C3'","O3'",1>>})
     [] resn = T("LIG") -> Tpl({<<"C1","C2",3>>, <<"C2","O1",1>>, <<"C1","N1",2>>})
     [] resn = T("RNG") -> Tpl({<<"C1","C2",6>>, <<"C2","C3",5>>, <<"C3","C4",6>>, <<"C4","C5",5>>, <<"C5","C6",6>>, <<"C6","C1",5>>})
     [] OTHER -> {}
@@ -190,26 +200,26 @@ ReadBox(lines) ==
            ang |-> <<ParseFixed(F("alpha"), 2).units, ParseFixed(F("beta"), 2).units, ParseFixed(F("gamma"), 2).units>>] >>
 
 NoBonds == [carry |-> {}, upper |-> {}, exact |-> {}]
+ReadBonds(lines, atoms) ==
+  Bind(ConectPairs(lines, [i \in DOMAIN atoms |-> atoms[i].serial]), LAMBDA cp :
+    Bind(MergeBonds(cp, MergeBonds(TemplateBonds(atoms), ImpliedLinks(atoms))), LAMBDA exact :
+      [carry |-> {<<b[1], b[2]>> : b \in cp},          \* must come back
+       upper |-> {<<b[1], b[2]>> : b \in exact},       \* nothing else may come back
+       exact |-> exact]))                              \* with these types (diagnostic)
 (* get_structure(model=None, extra_fields=[atom_id, b_factor, occupancy, charge], include_bonds)
    S is only consulted for what the caller knows: whether bonds were written (include_bonds) *)
 ReadFile(lines, S) ==
-  LET kinds == Kinds(lines)
-      ml == ModelLength(kinds)
-      nm == Len(ModelStarts(kinds))
-      recs(m) == RecordsForModel(kinds, m).pos
-      atoms == [i \in 1..ml.n |-> ReadAtom(lines[recs(1)[i]])]
-      tb == TemplateBonds(atoms)   il == ImpliedLinks(atoms)
-      cp == ConectPairs(lines, [i \in 1..ml.n |-> atoms[i].serial])
-      exact == MergeBonds(cp, MergeBonds(tb, il))
-  IN [ok      |-> ml.ok /\ \A i \in 1..ml.n : atoms[i].ok,
-      nmodels |-> nm,
-      atoms   |-> atoms,
-      coords  |-> [m \in 1..nm |-> [i \in 1..ml.n |-> ReadAtom(lines[recs(m)[i]]).xyz]],
-      box     |-> ReadBox(lines),
-      bonds   |-> IF S.bonds = <<>> THEN NoBonds
-                  ELSE [carry |-> {<<b[1], b[2]>> : b \in cp},          \* must come back
-                        upper |-> {<<b[1], b[2]>> : b \in exact},       \* nothing else may come back
-                        exact |-> exact]]                               \* with these types (diagnostic)
+  Bind(Kinds(lines), LAMBDA kinds :
+    Bind(ModelLength(kinds), LAMBDA ml :
+      Bind([m \in 1..Len(ModelStarts(kinds)) |->
+              Bind(RecordsForModel(kinds, m).pos, LAMBDA pos : [i \in 1..ml.n |-> ReadAtom(lines[pos[i]])])],
+           LAMBDA recs :
+        [ok      |-> ml.ok /\ \A i \in 1..ml.n : recs[1][i].ok,
+         nmodels |-> Len(recs),
+         atoms   |-> recs[1],                                  \* annotations come from the first model
+         coords  |-> [m \in 1..Len(recs) |-> [i \in 1..ml.n |-> recs[m][i].xyz]],
+         box     |-> ReadBox(lines),
+         bonds   |-> IF S.bonds = <<>> THEN NoBonds ELSE ReadBonds(lines, recs[1])])))
 
 (* get_structure(model=k) / get_coord(model=k): the coordinates of one model *)
 ReadModel(lines, k) ==
@@ -247,7 +257,7 @@ EmptyBack == [ok |-> FALSE, nmodels |-> 0, atoms |-> <<>>, coords |-> <<>>, box 
 (* model numbers tried on a file of M models: -(M+1) .. M+1 *)
 ModelNumbers(M) == [k \in 1..(2 * M + 3) |-> k - M - 2]
 Expect(S) ==
-  LET w == WriteFile(S) IN
+  Bind(WriteFile(S), LAMBDA w :
   [oc      |-> w.oc,
    lines   |-> w.lines,
    back    |-> IF w.oc = "ok" THEN ReadFile(w.lines, S) ELSE EmptyBack,
@@ -256,7 +266,11 @@ Expect(S) ==
                ELSE <<>>,
    kb      |-> FileKB(S),
    lenient |-> Lenient(S),
-   dom     |-> Dom_File(S) /\ Dom_BondIds(S)]
+   domBox  |-> Dom_Box(S),
+   dom     |-> Dom_File(S) /\ Dom_BondIds(S)])
+
+Pending == [oc |-> "pending", lines |-> <<>>, back |-> EmptyBack, sel |-> <<>>, kb |-> {}, lenient |-> FALSE,
+            domBox |-> FALSE, dom |-> FALSE]
 
 (* ------------------------------------------------------------------ statements checked by TLC (S1) *)
 (* the design round-trips: reading what the reference writer wrote gives the structure back at
